@@ -55,6 +55,9 @@ CHECKS = {
  "C15": dict(cat="other", engine="mirsym", tech="bounded symbolic execution of rustc MIR with every I/O result symbolic (z3 validity per path) + Kani/CBMC on hasher::scan/stream_hash with a failing model reader; CLI replay under an LD_PRELOAD fault shim",
              text="Faults are symbolic variables: each I/O call on the analysed paths returns an arbitrary Ok/Err. Kani/CBMC decides on the compiled hasher::scan/stream_hash (stream <= 4 bytes, arbitrary short reads, the k-th read failing) that a failed read never yields a hash; z3 decides on the MIR of file_hash, hash_file, hash_transformed, the *_or_log_err wrappers, the hash closure of every stage, rehash's task closure, file_info_or_log_err, FileInfo::new, scan_files' consumer, visit_path/visit_link/visit_dir, run's roots loop, sorted_entries and update_file_locations that an error removes exactly the failing entry (no hash, no stand-in hash, no cache entry, warning unless NotFound), that no panic is conditional on an I/O error and that the roots loop continues. Kernel-level: the end-to-end statement follows with C03's wiring facts.",
              note="Trusted: MIR front end + summaries (lib/optsum.py: Option/Result combinators execute their closure bodies), z3, Kani translation + model reader; error reporting of std::fs / child processes. Real syscall-level fault injection only in the replay step.", ref="DESIGN.md §3 C15"),
+ "C16": dict(cat="other", engine="mirsym", tech="bounded symbolic execution of the MIR of regex::Regex::new/get_fixed_prefix/is_partial_match over byte-list strings (regex = fragment classes with solver-chosen bytes, directory = symbolic characters), z3 validity against a reference matcher written as an SMT dynamic programme; native replay with the real Regex",
+             text="Pruning half: for every anchored regex of <= 3 fragments from the menu the glob translator emits (plain / escaped / two-byte literal, '/', [^/]*, .*, [^/], (a|b), (a)?, [ab], plus c? and c* of raw regexes; bytes chosen by the solver) and every directory string of <= 4 symbolic characters ending in '/', z3 decides on the symbolic execution of Regex::new + get_fixed_prefix + is_partial_match that a directory which is a prefix of a matched string is never rejected. Counterexamples are grouped by call site (comparison vs. prefix computation) and replayed with the real Regex. The matching half (glob -> regex by nom combinators, the regex engine) is not encodable and outside the claim.",
+             note="Trusted: MIR front end + string summaries, the reference semantics of the regex fragments (validated natively on the replayed counterexamples), z3. Two defects found on the unchanged tree are pinned by an existing unit test and recorded as known findings.", ref="DESIGN.md §3 C16"),
 }
 
 NOT_YET = {}
